@@ -489,7 +489,11 @@ def run_property(prop: str, tier: str, seed: int, only: list | None = None, jobs
 
         ctx = mp.get_context("spawn")
         counter = ctx.Value("i", 0)
-        with ProcessPoolExecutor(max_workers=min(jobs, len(tasks)), mp_context=ctx,
+        # one task per worker process: scipp keeps a per-process table of dimension labels (65 536
+        # entries) and sc.reduce / the package's uuid-named helper dimensions use a new label on every
+        # call; a worker that ran several thorough shards in a row exhausted it (thorough run, seed 5:
+        # "Exceeded maximum number of different dimension labels" in Frame.bounds after ~60 000 calls)
+        with ProcessPoolExecutor(max_workers=min(jobs, len(tasks)), mp_context=ctx, max_tasks_per_child=1,
                                  initializer=_pin_worker, initargs=(counter,)) as ex:
             results = list(ex.map(run_task, tasks))
 
